@@ -676,6 +676,13 @@ func drvCgo(r *rand.Rand, n int) [][]Action {
 			for _, t := range late {
 				h = append(h, Action{A: "Preamble", N: t})
 			}
+			if r.Intn(2) == 0 {
+				// ... and one more path is referenced: the block loses "C" (it moves below the preamble) and gains the new
+				// path - as many entries as before
+				np := []string{"os", "late/one", "x/d"}[r.Intn(3)]
+				h = append(h, Action{A: "Add", Tree: varQ(np, st.sym(np))})
+				h = append(h, Action{A: "Render"})
+			}
 			h = append(h, Action{A: "Render"})
 		}
 		if r.Intn(4) == 0 {
